@@ -173,6 +173,21 @@ def run(ctx: Ctx):
                           dict(differences=[dict(what=a, implementation=str(b)[:300], model=str(m)[:300]) for a, b, m in diffs[:6]],
                                theorem="Ladim.C07.schedule_complete / file_chunks / all_closed / names"),
                           tags=dict(first=diffs[0][0].split(" ")[-1], mult=c["nsteps"] % c["period"] == 0))
+        elif g["status"] == "ok":
+            # the statement itself, without the model: one record for each output time
+            # start + k*period in [start, stop)
+            sg = -1 if c["rev"] else 1
+            ref_off = (c["nsteps"] * DT + c["resid"]) if c["rev"] else 0
+            expect = [float(sg * k_ * c["period"] * DT + ref_off) for k_ in range(0, c["nsteps"] + 2)
+                      if k_ * c["period"] * DT < c["nsteps"] * DT + c["resid"]]
+            have = [t for f in g["files"] for t in f.get("time", [])]
+            ctx.case("window-times", [c["nsteps"], c["period"], c["resid"], c["rev"]], nontrivial=True)
+            if have != expect:
+                beyond = have == expect[:-1] and c["resid"] > 0
+                ctx.violation("failing-input", "window-times", c,
+                              dict(what="output times start + k*period in [start, stop) vs. the records written", expected=expect, implementation=have,
+                                   theorem="Ladim.C07.schedule_complete (steps 0, p, 2p, ... < Nsteps)"),
+                              tags=dict(first="output time beyond the last step" if beyond else "schedule", tail=beyond))
     # filename generator on its own
     stems = ["out", "cake_04", "cake_0099", "a_1_2", "x12", "y_", "z__7", "w_9", "run_999", "q_0x12", "_5", "5", "p_00"]
     want = driver([dict(op="genname", stem=s, suffix=".nc", n=12) for s in stems])
